@@ -68,7 +68,11 @@ TEXTS["C13"] = {
 TEXTS["C12"] = {
     "text": "Proved on the model of Commit/removeJournalsBeforeBlock/RollbackState: refusals above the head and below the retained window (C12_refuse_higher, C12_refuse_too_much) return no ledger (nothing modified), "
             "rollback to the head is the identity (C12_noop_at_head), and committing consecutive heights keeps exactly the last 10 journals plus the genesis target while height 1 is retained "
-            "(commit_range, C12_commit_keeps_window). That a rollback restores the abstract state of the target height is decided by correspondence (model = code on rollback histories incl. pruning) and by the "
+            "(commit_range, C12_commit_keeps_window). Restoration itself is proved for the state store: FlushDirtyData + Commit of a block followed by RollbackState to the previous height gives back, for every "
+            "address, the account record, code and bytes under every storage key (C12_rollback_restores_previous_block, through the model's flush / commit / rollback), and for any number of blocks "
+            "RollbackState(t) leaves what the state store held at height t (C12_rollback_restores_any_retained_height, C12_reverting_journals_restores_any_height; Proofs/LedgerRollback.lean) - under the hypothesis "
+            "that each committed account object's origin fields mirror the state store (Coh), which the model driver evaluates at every commit of every generated history and reports in the evidence "
+            "(model:coh=1 / coh=0/<clause>). Rollback vs. the code is decided by correspondence (model = code on rollback histories incl. pruning) and by the "
             "reference monitor that compares the full dump after every rollback with the dump recorded at commit time. One defect (AddState journaled a wrong previous value) was repaired by a fix: commit.",
     "note": TB,
     "technique": "Lean 4 theorems over the executable journal-window model + differential correspondence + recorded-dump monitor",
